@@ -12,7 +12,7 @@ USES_MTM = True
 RULE = ('EX engine (metamorphic): 12 estimator classes x real/complex x every lattice vector (short-record estimators) and every vector of the fixed families '
         'x EVERY admissible NFFT1 from the estimator minimum to 2N+3 x c in {2,3,4}: the PSD with NFFT=c*NFFT1 at index c*j equals the PSD with NFFT1 at index j '
         '(one-sided: every entry, Nyquist included), and the model parameters (ar, ma, rho, reflection, singular values, taper eigenvalues, weights at common '
-        'bins) are identical (1e-12, i.e. rounding level); also through the NFFT setter of a live object. Distinct = digests of the NFFT1 estimate')
+        'bins) are identical (1e-12, i.e. rounding level); also through the NFFT setter of a live object; the same grid relation on the function forms speriodogram (detrend on/off x 3 windows x records with a mean) and arma2psd (two-sided / centerdc, real / complex AR, MA, ARMA coefficients). Distinct = digests of the NFFT1 estimate')
 ASSUMPTIONS = ['scale_by_freq is off', 'domain as in C03/C04 (well-posed problems)',
                "tolerance 1e-9 relative to the largest value; multitaper 'adapt': 5e-3 (its iteration stops on a global tolerance of 5e-4 times the data power per bin, so the number of iterations may depend on NFFT)"]
 
@@ -28,7 +28,7 @@ def bounds(tier):
 
 
 def expected_clauses(tier):
-    return ['grid', 'grid_axis', 'params', 'setter']
+    return ['grid', 'grid_axis', 'params', 'setter', 'fn_speriodogram', 'fn_arma2psd']
 
 
 def shards(tier):
@@ -41,12 +41,19 @@ def shards(tier):
     for cls in SHORT_OK:
         out.append(('lat', cls, 3 if q else 4, True))
         out.append(('lat', cls, 4 if q else 6, False))
+    for N in ([12] if q else [12, 13]):
+        for cplx in (False, True):
+            out.append(('fn', 'speriodogram', N, cplx))
+    for cplx in (False, True):
+        out.append(('fn', 'arma2psd', 0, cplx))
     return out
 
 
 def run_shard(desc, R, tier):
     kind, cls, N, cplx = desc
     mult = [2, 3] if tier == 'quick' else [2, 3, 4]
+    if kind == 'fn':
+        return _run_fn(cls, N, cplx, mult, tier, R)
     if kind == 'fam':
         fam = (A.gen_cplx(N) + A.tones_cplx(N)) if cplx else (A.gen_real(N) + A.tones_real(N))
         if tier == 'quick':
@@ -71,7 +78,88 @@ def _get(obj, a):
     return None if v is None else np.asarray(v)
 
 
+FN_WINDOWS = ['rectangular', 'hann', 'hamming']
+FN_OFFSETS = [0.0, 2.0, -1.5]          # added to the record: the function form detrends (subtracts the mean) only when asked to
+FN_COEFS = {False: [[], [-0.5], [0.3, 0.4], [-1.2, 0.9, -0.3]],
+            True: [[], [-0.5 + 0.2j], [0.3j, 0.4], [-0.6 + 0.5j, 0.2 - 0.3j, 0.1j]]}
+
+
+def _run_fn(fn, N, cplx, mult, tier, R):
+    """Function-form entry points (the classes pre-process their data, so a grid dependence inside the function can hide behind them)."""
+    if fn == 'speriodogram':
+        fam = (A.gen_cplx(N) + A.tones_cplx(N)) if cplx else (A.gen_real(N) + A.tones_real(N))
+        if tier == 'quick':
+            fam = fam[::2]
+        for name, x in fam:
+            for off in FN_OFFSETS:
+                xo = np.asarray(x) + (off * (1 - 0.75j) if cplx else off)
+                for win in FN_WINDOWS:
+                    for det in (False, True):
+                        for nf in range(N, 2 * N + 4):
+                            eval_point({'fn': fn, 'x': xo, 'NFFT': nf, 'mult': mult, 'window': win, 'detrend': det, 'name': name}, R)
+    else:
+        for a in FN_COEFS[cplx]:
+            for b in FN_COEFS[cplx]:
+                if not a and not b:
+                    continue
+                for nf in range(max(len(a), len(b)) + 1, 20):
+                    for sides in ('default', 'centerdc'):
+                        eval_point({'fn': fn, 'A': np.array(a, dtype=complex if cplx else float), 'B': np.array(b, dtype=complex if cplx else float),
+                                    'NFFT': nf, 'mult': mult, 'sides': sides}, R)
+
+
+def _eval_fn(pt, R):
+    import spectrum
+    fn, nf = pt['fn'], int(pt['NFFT'])
+    if fn == 'speriodogram':
+        x = np.asarray(pt['x'])
+        feats = {'dtype': 'complex' if np.iscomplexobj(x) else 'real', 'nfft': 'odd' if nf % 2 else 'even', 'detrend': bool(pt['detrend']), 'window': pt['window']}
+        call = lambda n: np.asarray(spectrum.speriodogram(x.copy(), NFFT=n, detrend=bool(pt['detrend']), sampling=1., scale_by_freq=False, window=pt['window']))
+        ref = lambda P, n, c: P[c * np.arange(len(P1))] if c * (len(P1) - 1) < len(P) else None
+        msg = 'speriodogram values at frequencies common to the NFFT1 and c*NFFT1 grids differ'
+    else:
+        a, b = np.asarray(pt['A']), np.asarray(pt['B'])
+        feats = {'dtype': 'complex' if np.iscomplexobj(a) else 'real', 'nfft': 'odd' if nf % 2 else 'even', 'A': len(a) > 0, 'B': len(b) > 0, 'sides': pt['sides']}
+        call = lambda n: np.asarray(spectrum.arma2psd(A=a.copy() if len(a) else None, B=b.copy() if len(b) else None, rho=1.5, T=1., NFFT=n, sides=pt['sides']))
+
+        def ref(P, n, c):
+            if len(P) != n:
+                return None
+            if pt['sides'] == 'centerdc':       # entry j is frequency (j - n//2)/n
+                k1 = np.arange(nf) - nf // 2
+                return P[c * k1 + n // 2]
+            return P[c * np.arange(nf)]
+        msg = 'arma2psd values at frequencies common to the NFFT1 and c*NFFT1 grids differ'
+    clause = 'fn_' + fn
+    R.calls()
+    try:
+        P1 = call(nf)
+    except Exception as e:
+        R.point(pt)
+        R.viol(clause, dict(feats, exc=type(e).__name__), pt, repr(e), None, 'function raised for an admissible NFFT')
+        return
+    if not np.all(np.isfinite(P1)) or (fn == 'arma2psd' and P1.max() > 1e9 * max(P1.min(), 1e-300)):
+        R.point(pt, indomain=False)
+        R.skip('psd_not_finite(model pole on the grid)')
+        return
+    R.point(pt)
+    R.dig(P1)
+    for c in pt['mult']:
+        ptc = dict(pt, mult=[c])
+        R.calls()
+        try:
+            P2 = call(c * nf)
+            sub = ref(P2, c * nf, c)
+        except Exception as e:
+            R.viol(clause, dict(feats, exc=type(e).__name__), ptc, repr(e), None, 'function raised for NFFT = c*NFFT1')
+            continue
+        ok = sub is not None and sub.shape == P1.shape and close(sub, P1, 1e-9, 0.0)
+        R.check(ok, clause, dict(feats, c=c), ptc, sub, P1, msg, err=relerr(sub, P1) if sub is not None and sub.shape == P1.shape else None)
+
+
 def eval_point(pt, R):
+    if pt.get('fn'):
+        return _eval_fn(pt, R)
     cls, o, x, nf = pt['cls'], pt['o'], np.asarray(pt['x']), int(pt['NFFT'])
     N = len(x)
     cplx = np.iscomplexobj(x)
